@@ -150,6 +150,12 @@ Definition spec_shl (sg : sgn) (w a b : Z) : outcome Z :=
 Definition spec_shr (sg : sgn) (w a b : Z) : outcome Z :=
   if b <? 0 then Ok 0 else Ok (Z.shiftr a b).
 
+(* the same, computable for huge counts (proofs/NumFnProofs.v: spec_shl_exec_eq, spec_shr_exec_eq) *)
+Definition spec_shl_exec (sg : sgn) (w a b : Z) : outcome Z :=
+  if b <? 0 then Ok 0 else if w <=? b then Ok 0 else Ok (wrap sg w (Z.shiftl a b)).
+Definition spec_shr_exec (sg : sgn) (w a b : Z) : outcome Z :=
+  if b <? 0 then Ok 0 else if w <=? b then Ok (if a <? 0 then -1 else 0) else Ok (Z.shiftr a b).
+
 (* ---------------------------------------------------------------- round(decimal(p,s) [, n]) *)
 (* RoundDecimal::bind:
      scale = i8::try_from(n)  (error "Decimal scale too large");  no second argument: n = 0
@@ -284,4 +290,13 @@ Definition fres_eqb (x y : fres) : bool :=
   | FInt _ a, FInt _ b => a =? b
   | FBits a, FBits b => a =? b
   | _, _ => false
+  end.
+
+(* ---------------------------------------------------------------- comparisons across integer types
+   (definition only: the six comparisons of the mathematical integers, whatever the two operand types;
+   the implicit casts the binder inserts are the typing property's subject) *)
+Inductive cmpop := CLt | CLe | CEq | CNe | CGe | CGt.
+Definition spec_cmp (op : cmpop) (a b : Z) : bool :=
+  match op with
+  | CLt => a <? b | CLe => a <=? b | CEq => a =? b | CNe => negb (a =? b) | CGe => b <=? a | CGt => b <? a
   end.
